@@ -140,6 +140,7 @@ func cmdVerify(args []string) {
 }
 
 type runResult struct {
+	DeadReturns []string
 	Covers     []*Obligation
 	Obls       []*Obligation
 	Structure  []string
@@ -152,6 +153,7 @@ type runResult struct {
 func (V *Verifier) verifyFunctions(fns []*ssa.Function, lemmas []*Lemma, opt solveOpts) *runResult {
 	res := &runResult{}
 	V.prepareAxioms()
+	res.Structure = append(res.Structure, V.checkImmutables()...)
 	for _, fn := range fns {
 		key := funcKey(fn)
 		fc := V.C.Funcs[key]
@@ -184,9 +186,24 @@ func (V *Verifier) verifyFunctions(fns []*ssa.Function, lemmas []*Lemma, opt sol
 		copt.timeout = 3 * time.Second
 	}
 	V.solveAll(res.Covers, copt)
+	// vacuity: a function none of whose returns is reachable under the assumptions made
+	// (contradictory requires / invariants / extern contracts) proves nothing. A single
+	// unreachable return is usually defensive code that the contracts make dead; those are
+	// listed in the evidence, not reported.
+	reach := map[string][2]int{}
 	for _, c := range res.Covers {
+		r := reach[c.Func]
 		if c.Result == "unsat" {
-			res.Structure = append(res.Structure, fmt.Sprintf("vacuity:%s: return is unreachable under the assumed contracts (contradictory requires/invariants/extern contracts)", c.Name))
+			r[1]++
+			res.DeadReturns = append(res.DeadReturns, c.Name)
+		} else {
+			r[0]++
+		}
+		reach[c.Func] = r
+	}
+	for fn, r := range reach {
+		if r[0] == 0 && r[1] > 0 {
+			res.Structure = append(res.Structure, fmt.Sprintf("vacuity:%s: no return is reachable under the assumed contracts (contradictory requires/invariants/extern contracts)", fn))
 		}
 	}
 	// Houdini step for automatically proposed loop invariants: a candidate whose own
